@@ -130,10 +130,11 @@ def r1_no_data(P, rep, ctx):
     dt = f.tests(f"{vv}.node_type == H5Type.dataset")
     cg = f.calls(f"{ds}.create_group({kv})", f"{ds}.require_group({kv})")
     dsn = [n.idx for n, t in stores if norm(t) == f"{ds}[{kv}]"]
-    ok = bool(gt) and bool(dt) and bool(cg) and bool(dsn) and f.all_hit_before(cg, edges=gt) and f.all_hit_before(dsn, edges=dt) and all(f.hit_before(outer[0].idx, nodes=dsn, src_edge=e) for e in dt)
+    ok = bool(gt) and bool(dt) and bool(cg) and bool(dsn) and f.all_hit_before(cg, edges=gt) and f.all_hit_before(dsn, edges=dt) and f.hit_before(outer[0].idx, nodes=dsn, edges=f.neg(dt) + gt, src_edge=(outer[0].idx, "iter"))
     # a group entry is created unless it exists already
     present = f.tests(f"{kv} in {ds}")
-    ok = ok and all(f.hit_before(outer[0].idx, nodes=cg, edges=present, src_edge=e) for e in gt)
+    # (asked per iteration: every way round the loop creates the group, finds it present, or is not a group entry)
+    ok = ok and f.hit_before(outer[0].idx, nodes=cg, edges=present + f.neg(gt), src_edge=(outer[0].idx, "iter"))
     rep.check(ok, "C10.R1", fi.qual, "groups become groups and datasets become (empty) datasets", fi.loc(), construct="node kinds", message="init_stub_skeleton does not create groups for group entries and empty datasets for dataset entries")
     r1 = f.refuses(f.tests(f"len({ds})"))
     r2 = f.refuses(f.tests(f"len({ds}.attrs)"))
@@ -178,8 +179,19 @@ def r2_identity(P, rep, ctx):
     f = F(ctx, fi)
     g = f.g
     mfile = fi.params[2]
-    MAN = f"IH5Manifest.parse_file({mfile})"
+    # the manifest is the given file, parsed from the file or from the bytes read from it; its hash is the hash of the same file
+    # / the same bytes
+    BYTES = [f"Path({mfile}).read_bytes()", f"{mfile}.read_bytes()", f"open({mfile}, 'rb').read()"]
+    MANS = {f"IH5Manifest.parse_file({mfile})": [f"hashsum_file({mfile})", f"file_hashsum({mfile})"]}
+    for b_ in BYTES:
+        MANS[f"IH5Manifest.parse_raw({b_})"] = [f"qualified_hashsum({b_})", f"hashsum_file({mfile})", f"file_hashsum({mfile})"]
     isb = f.call_sites("init_stub_base(__d, __u, __s)")
+    MAN = f"IH5Manifest.parse_file({mfile})"
+    for i, c, b in isb:
+        u = f.x_at(i, b["__u"])
+        for m_ in MANS:
+            if u == f"{m_}.user_block.copy()":
+                MAN = m_
     upd = f.call_sites("__e.update(__u)")
     commits = f.call_sites("__d.commit_patch(__is_stub__=True)")
     ok = bool(isb) and all(f.x_at(i, b["__u"]) == f"{MAN}.user_block.copy()" for i, c, b in isb)
@@ -189,7 +201,7 @@ def r2_identity(P, rep, ctx):
         e = f.xe_at(i, b["__e"])
         if isinstance(e, ast.Call) and norm(e.func) == "IH5UBExtManifest":
             kws = {k.arg: f.x_at(i, k.value) for k in e.keywords}
-            if kws == {"is_stub_container": "True", "manifest_uuid": f"{MAN}.manifest_uuid", "manifest_hashsum": f"hashsum_file({mfile})"} and f.x_at(i, b["__u"]) == f"{MAN}.user_block.copy()":
+            if kws == {"is_stub_container": "True", "manifest_uuid": f"{MAN}.manifest_uuid", "manifest_hashsum": kws.get("manifest_hashsum")} and kws.get("manifest_hashsum") in MANS[MAN] and f.x_at(i, b["__u"]) == f"{MAN}.user_block.copy()":
                 ok = True
     rep.check(ok, "C10.R2", fi.qual, "the stub links the given manifest by uuid and by the hash of the manifest file", fi.loc(), construct="stub manifest link", message="create_stub does not link the manifest by manifest_uuid and hashsum_file(manifest_file)")
     u_nodes, b_nodes, c_nodes = [i for i, c, b in upd], [i for i, c, b in isb], [i for i, c, b in commits]
